@@ -167,7 +167,12 @@ def main_check(pid, tier, seed, replay_path=None):
     cfg = dict(getattr(prop, 'TIERS')[tier])
     nshards = int(os.environ.get('VERIF_SHARDS', cfg.get('shards', 4)))
     ncases = int(os.environ.get('VERIF_CASES', cfg.get('cases', 50)))
-    watchdog = int(cfg.get('watchdog_s', 1500 if tier == 'thorough' else 600))
+    watchdog = int(cfg.get('watchdog_s', 1800 if tier == 'thorough' else 600))
+    # soft time budget per shard: a shard stops generating cases when it is used up and reports what it
+    # observed so far (load on the machine then reduces coverage, recorded in the evidence, instead of
+    # turning the run inconclusive); the hard watchdog above still makes a hung shard inconclusive
+    budget = int(os.environ.get('VERIF_SHARD_BUDGET_S') or cfg.get('budget_s', 900 if tier == 'thorough' else 150))
+    os.environ['VERIF_SHARD_BUDGET_S'] = str(budget)
     replay = None
     if replay_path:
         replay = json.load(open(replay_path))
@@ -276,7 +281,7 @@ def main_check(pid, tier, seed, replay_path=None):
                 new_violation_keys=new_keys,
                 inconclusive=inconclusive,
                 verdict=status,
-                shards=nshards, shard_wall_s=shard_wall,
+                shards=nshards, shard_wall_s=shard_wall, shard_budget_s=budget, cases_per_shard_cap=ncases,
                 repo=REPO,
             ),
             assumptions=list(getattr(prop, 'ASSUMPTIONS', [])),
